@@ -382,7 +382,16 @@ def _req(cond, msg):
         raise HarnessError("C20: invalid case: %s" % msg)
 
 
+# values that are unusable where they stand but never come to use because the command line overrides them
+BROKEN_RE = ["*.feature", "(unbalanced", "[a-"]
+UNRESOLVABLE_FORMAT = ["allure", "no.such.module:Formatter"]
+
+
 def _value_ok(d, v, in_file):
+    if in_file and d in ("include_re", "exclude_re") and v in BROKEN_RE:
+        return True
+    if in_file and d == "default_format" and v in UNRESOLVABLE_FORMAT:
+        return True
     if d in BOOLS:
         return isinstance(v, bool)
     if d == "jobs":
@@ -456,6 +465,11 @@ def validate(case):
             _req(isinstance(v, bool) and (v or BOOLS[d][1]), "flag %s" % d)
         else:
             _req(_value_ok(d, v, False), "cli value of %s" % d)
+    for d in ("include_re", "exclude_re"):
+        if d in fv and fv[d][0] in BROKEN_RE:
+            _req(any(item["d"] == d for item in cli), "unusable %s in a file without a command-line override" % d)
+    if "default_format" in fv and fv["default_format"][0] in UNRESOLVABLE_FORMAT:
+        _req(any(item["d"] == "format" for item in cli), "unresolvable default_format without -f on the command line")
     # -- tags: dialect consistency
     proto = fv.get("tag_expression_protocol", ("auto_detect", 0))[0]
     cv = cli_values(case)
@@ -818,7 +832,10 @@ def run_case(case):
             with contextlib.redirect_stdout(out), contextlib.redirect_stderr(out):
                 config = Configuration(list(argv))
         except SystemExit as e:
-            if any(o.get("lead") for f in case["files"] for o in f["opts"]):
+            if any(o.get("lead") for f in case["files"] for o in f["opts"]) or \
+                    any((o["d"] in ("include_re", "exclude_re") and o["v"] in BROKEN_RE) or
+                        (o["d"] == "default_format" and o["v"] in UNRESOLVABLE_FORMAT)
+                        for f in case["files"] for o in f["opts"]):
                 obs.crash = "behave exits with: %s" % (out.getvalue().strip().splitlines() or ["?"])[-1][:200]
                 return obs
             raise HarnessError("C20: behave rejected the command line %r (exit %s): %s"
@@ -1111,6 +1128,10 @@ def _labels(res, case, exp, fv, cv):
             res.label("list-on-new-lines")
         if f["name"] != TOML_NAME and any(o.get("interp") for o in f["opts"]):
             res.label("ini:interpolation")
+        if any(o["d"] in ("include_re", "exclude_re") and o["v"] in BROKEN_RE for o in f["opts"]):
+            res.label("overridden-file-value-unusable:pattern")
+        if any(o["d"] == "default_format" and o["v"] in UNRESOLVABLE_FORMAT for o in f["opts"]):
+            res.label("overridden-file-value-unusable:default_format")
         if f["name"] != TOML_NAME and any(isinstance(o["v"], str) and "%" in o["v"] and o["d"] not in RAW_INI
                                            for o in f["opts"]):
             res.label("ini:escaped-per-cent")
@@ -1329,6 +1350,16 @@ def case_st(draw, toml_ok=True, focus="options"):
     gets = []
     if ndef or file_ud_names:
         gets = draw(st.lists(getter_st(), max_size=4 if focus == "userdata" else 1))
+    # -- a file value that is unusable where it stands but overridden by the command line never comes to use
+    cli_dests = set(item["d"] for item in cli)
+    for f in files:
+        for opt in f["opts"]:
+            if opt["d"] in ("include_re", "exclude_re") and opt["d"] in cli_dests and draw(st.booleans()):
+                opt["v"] = draw(st.sampled_from(BROKEN_RE))
+                opt.pop("interp", None)
+            elif opt["d"] == "default_format" and "format" in cli_dests and draw(st.booleans()):
+                opt["v"] = draw(st.sampled_from(UNRESOLVABLE_FORMAT))
+                opt.pop("interp", None)
     case = {"kind": "cfg", "layout": layout, "files": files, "cli": cli}
     if gets:
         case["gets"] = gets
@@ -1435,7 +1466,8 @@ def required_labels(tier):
               "paths-replace", "coupling:wip", "coupling:quiet", "coupling:junit", "coupling:steps_catalog",
               "define", "define:lone-quote", "userdata-override", "file-userdata", "getter:default",
               "getter:ValueError", "getter:converted", "list-on-new-lines", "all-defaults", "ini:interpolation",
-              "ini:escaped-per-cent"]
+              "ini:escaped-per-cent", "overridden-file-value-unusable:pattern",
+              "overridden-file-value-unusable:default_format"]
     if toml_available():
         labels.append("file:" + TOML_NAME)
     return labels
@@ -1445,3 +1477,4 @@ KNOWN_PREDICATES = {}
 
 
 RULE = RULE + " " + ("The getter table includes zero-padded and prefixed numbers ('007', '-08', '0x10', '+3', '1_0').")
+RULE = RULE + " " + ('File values that are unusable where they stand (an include/exclude pattern that is no regular expression, a default_format that cannot be resolved) occur when the command line overrides them (-i/-e, -f): they never come to use.')
